@@ -20,7 +20,7 @@ class code2:
     with
 
     .. math::
-        I_\text{quad.|lin.}(\alpha; I^0, I^+, I^-) = \begin{cases} (b + 2a)(\alpha - 1) \qquad \alpha \geq 1\\  a\alpha^2 + b\alpha \qquad |\alpha| < 1 \\ (b - 2a)(\alpha + 1) \qquad \alpha < -1 \end{cases}
+        I_\text{quad.|lin.}(\alpha; I^0, I^+, I^-) = \begin{cases} (b + 2a)(\alpha - 1) + (a + b) \qquad \alpha \geq 1\\  a\alpha^2 + b\alpha \qquad |\alpha| < 1 \\ (b - 2a)(\alpha + 1) + (a - b) \qquad \alpha < -1 \end{cases}
 
     and
 
@@ -44,6 +44,8 @@ class code2:
         self._b = 0.5 * (self._histogramssets[:, :, 2] - self._histogramssets[:, :, 0])
         self._b_plus_2a = self._b + 2 * self._a
         self._b_minus_2a = self._b - 2 * self._a
+        self._a_plus_b = self._a + self._b
+        self._a_minus_b = self._a - self._b
         self._broadcast_helper = default_backend.ones(default_backend.shape(self._a))
         self._precompute()
         if subscribe:
@@ -55,6 +57,8 @@ class code2:
         self.b = tensorlib.astensor(self._b)
         self.b_plus_2a = tensorlib.astensor(self._b_plus_2a)
         self.b_minus_2a = tensorlib.astensor(self._b_minus_2a)
+        self.a_plus_b = tensorlib.astensor(self._a_plus_b)
+        self.a_minus_b = tensorlib.astensor(self._a_minus_b)
         # make up the masks correctly
         self.broadcast_helper = tensorlib.astensor(self._broadcast_helper)
         self.mask_on = tensorlib.ones(self.alphasets_shape)
@@ -89,13 +93,13 @@ class code2:
         # b: bin of histogram
         value_gt1 = tensorlib.einsum(
             'sa,shb->shab', alphasets - self.mask_on, self.b_plus_2a
-        )
+        ) + tensorlib.einsum('sa,shb->shab', self.mask_on, self.a_plus_b)
         value_btwn = tensorlib.einsum(
             'sa,sa,shb->shab', alphasets, alphasets, self.a
         ) + tensorlib.einsum('sa,shb->shab', alphasets, self.b)
         value_lt1 = tensorlib.einsum(
-            'sa,shb->shab', alphasets + self.mask_off, self.b_minus_2a
-        )
+            'sa,shb->shab', alphasets + self.mask_on, self.b_minus_2a
+        ) + tensorlib.einsum('sa,shb->shab', self.mask_on, self.a_minus_b)
 
         masks_gt1 = tensorlib.astensor(
             tensorlib.einsum(
@@ -125,11 +129,11 @@ class _slow_code2:
         a = 0.5 * (up + down) - nom
         b = 0.5 * (up - down)
         if alpha > 1:
-            delta = (b + 2 * a) * (alpha - 1)
+            delta = (b + 2 * a) * (alpha - 1) + (a + b)
         elif -1 <= alpha <= 1:
             delta = a * alpha * alpha + b * alpha
         else:
-            delta = (b - 2 * a) * (alpha + 1)
+            delta = (b - 2 * a) * (alpha + 1) + (a - b)
         return delta
 
     def __init__(self, histogramssets, subscribe=True):
